@@ -14,6 +14,8 @@ EXTENDS Machine
 
 Names_ == {"x", "y", "z", "f", "g", "h", "n", "c", "a", "b", "k", "v", "r", "t", "p", "zq", "rest..."}
 
+NamesR == Names_ \cup {"LOG"}       \* (MachineRand: same pool)
+
 Code(name) == CASE name = "x" -> <<120>> [] name = "y" -> <<121>> [] name = "z" -> <<122>>
                 [] name = "a" -> <<97>> [] name = "b" -> <<98>> [] name = "c" -> <<99>>
                 [] name = "k" -> <<107>> [] name = "n" -> <<110>> [] name = "p" -> <<112>>
